@@ -952,6 +952,28 @@ pub fn build_db(spec: &DbSpec) -> Result<Built, String> {
     }
     for tb in &spec.tables {
         let sql = tb.create_sql();
+        if tb.cols.iter().any(|c| matches!(c.ty, Ty::Dec(..))) {
+            // the parser maps DECIMAL to NUMERIC, so a DataType::Decimal column only comes from the
+            // table API: take the schema CREATE TABLE builds, put the declared type back, create it
+            let mut scratch = Database::new();
+            let schema = match catch(|| engine::exec(&mut scratch, &sql)) {
+                Ok(Ok(_)) => scratch.catalog.get_table(&tb.name).cloned(),
+                Ok(Err(e)) => return Err(format!("setup `{}` refused: {}", sql, e.text())),
+                Err(p) => return Err(format!("setup `{}` panicked: {}", sql, p)),
+            };
+            let Some(mut schema) = schema else { return Err(format!("setup `{}`: table not in catalog", sql)) };
+            for (col, c) in schema.columns.iter_mut().zip(tb.cols.iter()) {
+                if let Ty::Dec(p, sc) = c.ty {
+                    col.data_type = vibesql_types::DataType::Decimal { precision: p, scale: sc };
+                }
+            }
+            match catch(|| db.create_table(schema)) {
+                Ok(Ok(_)) => log.push(format!("{}; -- through Database::create_table, DECIMAL columns as DataType::Decimal", sql)),
+                Ok(Err(e)) => return Err(format!("create_table for `{}` refused: {:?}", sql, e)),
+                Err(p) => return Err(format!("create_table for `{}` panicked: {}", sql, p)),
+            }
+            continue;
+        }
         match catch(|| engine::exec(&mut db, &sql)) {
             Ok(Ok(_)) => log.push(format!("{};", sql)),
             Ok(Err(e)) => return Err(format!("setup `{}` refused: {}", sql, e.text())),
